@@ -425,7 +425,11 @@ func (e *Engine) runPath(fn *ssa.Function, prefix []int, solver *Solver, opt Opt
 				pr.outcome = OutcomePruned
 				return
 			}
-			p.violation("no-panic", m, "uncaught panic: "+msg+" at "+strings.Join(i.panicTrace, " <- "))
+			label := "no-panic"
+			if strings.Contains(msg, "all goroutines are asleep") {
+				label = "no-deadlock" // natively a hang, which harnesses detect with a time-out and report under this label
+			}
+			p.violation(label, m, "uncaught panic: "+msg+" at "+strings.Join(i.panicTrace, " <- "))
 			pr.outcome = OutcomePanic
 			pr.outcomeMsg = msg
 		case engineError:
